@@ -120,7 +120,13 @@ func gen(tier string) []proto.Item {
 					if op == "+1" && !vi.Parallel {
 						// +1 on a per-probe identifier names the next probe, which is not yet sent when the packet arrives (or never
 						// sent, after the destination answered): the parallel engines read it at once and must skip it; the serial
-						// engine would only read it after sending that probe
+						// engine reads it before that probe is sent only if it arrives BEFORE the genuine reply of its TTL
+						if g.ttl == 1 {
+							s := base(v, false)
+							s.Inject = []proto.Inject{{OnTTL: g.ttl, AnswerTTL: g.ttl, Form: g.form, From: proto.Router(vi.V6, 0, g.ttl).String(), DelayUs: 1000, Tag: "noise",
+								Perturb: &simnet.Perturb{Field: field, Op: op}}}
+							items = append(items, proto.Item{Scn: s, Class: fmt.Sprintf("%s/%s/field-%s/%s/own-flow/interleaved/before-genuine", v, g.form, field, op)})
+						}
 						continue
 					}
 					s := base(v, false)
